@@ -8,6 +8,7 @@ package chain
 import (
 	"encoding/json"
 	"fmt"
+	vestingtypes "github.com/cosmos/cosmos-sdk/x/auth/vesting/types"
 	"sync"
 	"time"
 
@@ -168,6 +169,7 @@ func New(opts Options) *Chain {
 	std.RegisterInterfaces(c.IR)
 	authtypes.RegisterInterfaces(c.IR)
 	banktypes.RegisterInterfaces(c.IR)
+	vestingtypes.RegisterInterfaces(c.IR) // vesting account types (accounts with locked coins exist in seeds)
 	txc := authtx.NewTxConfig(c.Cdc, authtx.DefaultSignModes)
 	c.TxCfg = txc
 
